@@ -170,12 +170,24 @@ def Operand.isPlain : Operand → Bool
   | .ref (.sig _) _ => true
   | _ => false
 
-/-- nodes whose value is always 0 or 1 -/
-def isBoolNode (nodes : Array CNode) (m : Nat) : Bool :=
-  match nodes[m]? with
-  | some (.cmp ..) | some (.land ..) | some (.lor ..) | some (.lnot ..) => true
-  | some (.gate _ _ _ (.int k) _) => k == 0 || k == 1      -- `(cond) : 0` and `(cond) : 1`
-  | _ => false
+/-- nodes whose value is always 0 or 1: comparisons and logical results, `(cond) : 0/1`, constants 0/1, and products and
+projections of such (what the compiler's `_is_boolean_producer` recognises, with the constant of `(cond) : k` checked) -/
+def isBoolNodeF (nodes : Array CNode) : Nat → Nat → Bool
+  | 0, _ => false
+  | f + 1, m =>
+    let argOK : Arg → Bool := fun a =>
+      match a with
+      | .int k => k == 0 || k == 1
+      | .node p => decide (p < m) && isBoolNodeF nodes f p
+    match nodes[m]? with
+    | some (.cmp ..) | some (.land ..) | some (.lor ..) | some (.lnot ..) => true
+    | some (.gate _ _ _ (.int k) _) => k == 0 || k == 1
+    | some (.const _ v) => v == 0 || v == 1
+    | some (.arith .mul a b _) => argOK a && argOK b
+    | some (.proj a _) => argOK a
+    | _ => false
+
+def isBoolNode (nodes : Array CNode) (m : Nat) : Bool := isBoolNodeF nodes (m + 1) m
 
 def isBoolArg (nodes : Array CNode) : Arg → Bool
   | .int k => k == 0 || k == 1
